@@ -209,11 +209,15 @@ structure TFlags where
   versCheckedOnlyWhenHave : Bool
 deriving Repr, DecidableEq
 
+/-- the transcript operations the theorems need -/
 def TFlags.sound (f : TFlags) : Bool :=
   f.cHelloAdded && f.cServerHelloAdded && f.cReadsHashed && f.cWritesHashed && f.cFinReadNil &&
   f.cFinAddedAfter && f.sHelloAdded && f.sWritesHashed && f.sReadsHashed && f.sCVReadNil &&
-  f.sCVAddedAfter && f.sFinReadNil && f.sFinAddedAfter && f.ccsNeedsEmptyHand && f.ccsNeedsExpect &&
-  f.hsRefusedWhenCCSExpected && f.finFullCompare && f.versCheckedOnlyWhenHave
+  f.sCVAddedAfter && f.sFinReadNil && f.sFinAddedAfter && f.finFullCompare
+
+/-- the record-layer guards of the stream stack -/
+def TFlags.recordStrict (f : TFlags) : Bool :=
+  f.ccsNeedsEmptyHand && f.ccsNeedsExpect && f.hsRefusedWhenCCSExpected && f.versCheckedOnlyWhenHave
 
 /-! ### the handshake layer: one state machine per role over messages and CCS signals -/
 
